@@ -9,7 +9,7 @@ from .. import core
 from ..core import SKIP
 
 ID = "C08"
-RULE = ("(v5: + genomes / chromosome columns with more than 256 contigs (257..700, thorough also 1000, 2000 and one with 65540) through every chromosome-aware entry point, rows on contigs 255, 256, 257, last; v4: + global_intersect on 1-3 chromosomes, pileup bedGraph, value_hist, Geometry.sort/accessors, StreamedGeometry, extend; v3: every interval argument is byte-compared with a copy taken before the call; multi-call sequences on one object; "
+RULE = ("(v6: + a sample of ALL cases again with the start / stop columns as uint8..uint64 / int8..int32 (numbers fit with room to spare), Geometry / StreamedGeometry cases again with underscore-named (ignored) contigs listed BEFORE regular ones in the size dict, coordinates at and past 2**31 / 2**32 / 2**33 / 2**40 on 2-3 contigs for sorting (4 entry paths, Geometry.sort) and extension; v5: + genomes / chromosome columns with more than 256 contigs (257..700, thorough also 1000, 2000 and one with 65540) through every chromosome-aware entry point, rows on contigs 255, 256, 257, last; v4: + global_intersect on 1-3 chromosomes, pileup bedGraph, value_hist, Geometry.sort/accessors, StreamedGeometry, extend; v3: every interval argument is byte-compared with a copy taken before the call; multi-call sequences on one object; "
         "jaccard_all_vs_all with 3-5 sets) exhaustive: every multiset of <= 3 half-open intervals on contigs of size 1..S (quick S<=4, thorough S<=6) for "
         "pileup / event pileup / mask / merge (every distance 0..S) ; every pair of multisets of <= 2 intervals (quick S<=4, "
         "thorough S<=6) for count_overlap / intersect / unique_intersect / contingency / Jaccard / Forbes; sort: every list of "
@@ -29,6 +29,8 @@ ASSUMPTIONS = [
     "functions carry no docstring, the repository's tests use disjoint operands",
     "clip is compared for intervals that meet the contig (start <= stop, start <= size, stop >= 0); extend_to_size for intervals "
     "inside the contig, fragment length >= 0, strands + and -",
+    "integer types of the position columns: every case may be run with uint8..uint64 / int8..int32 columns when twice its largest number "
+    "fits the type (arithmetic near the maximum of a narrow type is the caller's choice of type and out of scope, like int64 wrap-around)",
     "Jaccard needs a non-empty union, Forbes two non-empty sets (otherwise 0/0)",
     "the exported get_pileup delegates the counting to npstructures RunLength2dArray.from_intervals(...).sum(axis=0): specified "
     "external, equality with the per-base count is correspondence only; NumPy sort/argsort/lexsort/cumsum/fancy assignment are "
@@ -164,7 +166,7 @@ def _lean(node):
 
 
 HAND = {"clipStart": "(max (0 : Int) start)", "clipStop": "(min size stop)",
-        "extStart": "(if fwd = true then start else (max (stop - len) (0 : Int)))",
+        "extStart": "(if fwd = true then start else (stop - (min len stop)))",
         "extStop": "(if fwd = true then (min (start + len) size) else stop)"}
 
 
@@ -323,7 +325,79 @@ def _chrom_cases(rng, nch, size, n, disjoint):
             for sz in [rng.randrange(1, size + 1) for _ in range(nch)]]
 
 
+_DTS = ["uint8", "uint16", "uint32", "uint64", "int8", "int16", "int32"]
+_GEO_OPS = {"geo_clip": "chrom_sizes", "geo_extend": "chrom_sizes", "geo_mask": "chrom_sizes", "geo_pileup": "chrom_sizes", "geo_sort": "chrom_sizes",
+            "geo_seq": "chrom_sizes", "streamed_clip": "chrom_sizes", "streamed_extend": "chrom_sizes", "streamed_merge": "chrom_sizes",
+            "geo_jaccard": "chroms", "jaccard_matrix": "sizes"}
+_BIGS = [0, 7, 2 ** 31 - 1, 2 ** 31, 2 ** 32 - 1, 2 ** 32, 2 ** 32 + 50, 2 ** 33 + 7, 2 ** 40]
+
+
+def _ints(x):
+    if isinstance(x, bool) or isinstance(x, str) or x is None:
+        return
+    if isinstance(x, int):
+        yield x
+    elif isinstance(x, dict):
+        for v in x.values():
+            yield from _ints(v)
+    elif isinstance(x, (list, tuple)):
+        for v in x:
+            yield from _ints(v)
+
+
+def _big_coord_cases(rng, big):
+    """coordinates at and past 2**31 / 2**32 / 2**33 on two or three contigs (contigs longer than 2**32 bases exist): the operations
+    whose definition does not need a dense array - sorting (all entry paths, Geometry.sort) and strand-aware extension"""
+    for _ in range(300 if big else 40):
+        k = rng.choice([2, 2, 3])
+        recs = []
+        for _i in range(rng.choice([3, 5, 8])):
+            a = rng.choice(_BIGS) + rng.choice([0, 0, 3])
+            recs.append([rng.randrange(k), a, a + rng.choice([1, 5, 2 ** 32])])
+        if rng.random() < 0.5:
+            recs.append(list(rng.choice(recs)))
+        for path in ("plain", "enc", "order", "human"):
+            yield {"op": "sort", "recs": recs, "path": path}
+        sizes = [2 ** 41] * k
+        yield {"op": "geo_sort", "chrom_sizes": sizes, "recs": recs}
+        L = rng.choice([5, 2 ** 31, 2 ** 32 + 1])
+        fwd = [rng.randrange(2) for _ in recs]
+        yield {"op": "geo_extend", "chrom": [r[0] for r in recs], "chrom_sizes": sizes, "sizes": [2 ** 41] * len(recs),
+               "start": [r[1] for r in recs], "stop": [r[2] for r in recs], "fwd": fwd, "len": L}
+        yield {"op": "extend", "start": [r[1] for r in recs], "stop": [r[2] for r in recs], "sizes": [2 ** 41] * len(recs), "fwd": fwd, "len": L}
+
+
 def cases(tier, rng):
+    """the base cases, and for a sample of them the same case (a) with the start / stop columns in another integer type
+    (uint8..uint64, int8..int32; the numbers of the case fit the type with room to spare) and (b) - Geometry / StreamedGeometry -
+    with contigs whose name has an underscore (ignored by the genome context) listed BEFORE regular ones in the size dict"""
+    big = tier in ("thorough", "widen")
+    for c in itertools.chain(_base_cases(tier, rng), _big_coord_cases(rng, big)):
+        yield c
+        op = c["op"]
+        if op in ("geo_info",):
+            continue
+        nums = list(_ints(c))
+        if nums and rng.random() < (1.0 if len(nums) >= 400 else 0.04 if op in ("geo_jaccard", "jaccard", "forbes", "contingency", "unique_intersect") else 0.12):
+            lo, hi = min(nums), 2 * max(nums) + 2
+            if op == "extend_plain":        # start - k is negative by definition here: only signed types can hold the result
+                lo = lo - max(nums)
+            pool = [d for d in _DTS if np.iinfo(d).max >= hi and np.iinfo(d).min <= (0 if lo >= 0 else 2 * lo - 2)]
+            if pool:
+                yield dict(c, dt=rng.choice(pool))
+        key = _GEO_OPS.get(op)
+        if key and len(c[key]) <= 50 and rng.random() < 0.3:
+            n = len(c[key])
+            ign = [[rng.randrange(n), rng.choice([1, 3, 50, 200])] for _ in range(rng.choice([1, 1, 2]))]
+            c2 = dict(c, ignored=ign)
+            if rng.random() < 0.3:
+                pool = [d for d in _DTS if nums and np.iinfo(d).max >= 2 * max(nums) + 2 and np.iinfo(d).min <= (0 if min(nums) >= 0 else 2 * min(nums) - 2)]
+                if pool:
+                    c2["dt"] = rng.choice(pool)
+            yield c2
+
+
+def _base_cases(tier, rng):
     big = tier in ("thorough", "widen")
     S1 = 6 if big else 4          # single-set scope
     S2 = 6 if big else 4          # pair scope (multisets of <= 2)
@@ -553,6 +627,7 @@ def nontrivial(c):
 # ------------------------------------------------------------------ implementation
 
 _SNAP = []
+_DT = [int]        # dtype of the start / stop columns handed to the package (case key "dt")
 
 
 def _snap(x):
@@ -580,7 +655,7 @@ def _mutated():
 
 def _iv(rows, chrom="chr1"):
     m = _mods()
-    return _snap(m["Interval"]([chrom] * len(rows), np.array([r[0] for r in rows], dtype=int), np.array([r[1] for r in rows], dtype=int)))
+    return _snap(m["Interval"]([chrom] * len(rows), np.array([r[0] for r in rows], dtype=_DT[0]), np.array([r[1] for r in rows], dtype=_DT[0])))
 
 
 def _multi(chroms, key):
@@ -591,7 +666,20 @@ def _multi(chroms, key):
             names.append(f"chr{i + 1}")
             st.append(a)
             sp.append(b)
-    return _snap(m["Interval"](names, np.array(st, dtype=int), np.array(sp, dtype=int)))
+    return _snap(m["Interval"](names, np.array(st, dtype=_DT[0]), np.array(sp, dtype=_DT[0])))
+
+
+def _geo_sizes(c, lst):
+    """the chromosome-size dict handed to Geometry / StreamedGeometry: chr1..chrN in order and, if the case says so, contigs
+    with an underscore in the name (ignored by the genome context) inserted at the given positions of the listing"""
+    items = [(f"chr{i + 1}", z) for i, z in enumerate(lst)]
+    for k, (pos, sz) in enumerate(sorted(c.get("ignored", []))):
+        items.insert(min(pos + k, len(items)), (f"chrUn_{k}v1", sz))
+    return dict(items)
+
+
+def _reg(sizes):
+    return [n for n in sizes if "_" not in n]
 
 
 def _pairs(x):
@@ -615,7 +703,11 @@ def impl(c):
     """the observation of the real call; if the call changed any of its interval arguments (start / stop / strand
     columns compared byte for byte with a copy taken before the call) that is reported instead"""
     del _SNAP[:]
-    out = _impl_raw(c)
+    _DT[0] = np.dtype(c["dt"]) if "dt" in c else int
+    try:
+        out = _impl_raw(c)
+    finally:
+        _DT[0] = int
     mut = _mutated()
     del _SNAP[:]
     if mut and isinstance(out, dict):
@@ -637,12 +729,12 @@ def _impl_raw(c):
             return {"merges": merges, "pileup": pile, "mask": mask,
                     "sorted": [[0, int(a), int(b)] for a, b in zip(srt.start.tolist(), srt.stop.tolist())]}
         if op == "geo_seq":
-            sizes = {f"chr{i + 1}": z for i, z in enumerate(c["chrom_sizes"])}
+            sizes = _geo_sizes(c, c["chrom_sizes"])
             rows = c["rows"]
-            x = _snap(m["Interval"]([f"chr{r[0] + 1}" for r in rows], np.array([r[1] for r in rows], dtype=int),
-                                    np.array([r[2] for r in rows], dtype=int)))
+            x = _snap(m["Interval"]([f"chr{r[0] + 1}" for r in rows], np.array([r[1] for r in rows], dtype=_DT[0]),
+                                    np.array([r[2] for r in rows], dtype=_DT[0])))
             geo = m["Geometry"](sizes)
-            names = list(sizes)
+            names = _reg(sizes)
             merges = []
             for d in c["ds"]:
                 r = geo.merge_intervals(x, d)
@@ -656,7 +748,7 @@ def _impl_raw(c):
 
             def mk(rows):
                 ch = m["as_encoded_array"]([names[r[0]] for r in rows], enc) if rows else m["as_encoded_array"]([], enc)
-                return _snap(m["Interval"](ch, np.array([r[1] for r in rows], dtype=int), np.array([r[2] for r in rows], dtype=int)))
+                return _snap(m["Interval"](ch, np.array([r[1] for r in rows], dtype=_DT[0]), np.array([r[2] for r in rows], dtype=_DT[0])))
             r = ar.global_intersect(mk(c["b"]), mk(c["a"]))
             return {"recs": [[int(k), int(a), int(b)] for k, a, b in
                              zip(np.asarray(r.chromosome.raw()).ravel().tolist(), r.start.tolist(), r.stop.tolist())]}
@@ -672,14 +764,14 @@ def _impl_raw(c):
                     "names": sorted(set(r.chromosome.tolist()))}
         if op == "value_hist":
             from bionumpy.datatypes import BedGraph
-            g = BedGraph(["c"] * len(c["bg"]), np.array([r[0] for r in c["bg"]], dtype=int),
-                         np.array([r[1] for r in c["bg"]], dtype=int), np.array([r[2] for r in c["bg"]], dtype=int))
+            g = BedGraph(["c"] * len(c["bg"]), np.array([r[0] for r in c["bg"]], dtype=_DT[0]),
+                         np.array([r[1] for r in c["bg"]], dtype=_DT[0]), np.array([r[2] for r in c["bg"]], dtype=_DT[0]))
             h = m["bg"].value_hist(g)
             return {"hist": [int(v) for v in np.asarray(h).tolist()]} if all(float(v) == int(v) for v in np.asarray(h).tolist()) \
                 else {"hist": [float(v) for v in h]}
         if op in ("geo_sort", "geo_info", "streamed_merge"):
-            sizes = {f"chr{i + 1}": z for i, z in enumerate(c["chrom_sizes"])}
-            names = list(sizes)
+            sizes = _geo_sizes(c, c["chrom_sizes"])
+            names = _reg(sizes)
             if op == "geo_info":
                 from bionumpy.datatypes import ChromosomeSize
                 g = m["Geometry"](sizes)
@@ -688,29 +780,29 @@ def _impl_raw(c):
                         "names2": g2.names(), "size2": int(g2.size()), "repr": repr(g), "str_has": all(n in str(g) for n in names)}
             if op == "geo_sort":
                 recs = c["recs"]
-                x = _snap(m["Interval"]([names[r[0]] for r in recs], np.array([r[1] for r in recs], dtype=int),
-                                        np.array([r[2] for r in recs], dtype=int)))
+                x = _snap(m["Interval"]([names[r[0]] for r in recs], np.array([r[1] for r in recs], dtype=_DT[0]),
+                                        np.array([r[2] for r in recs], dtype=_DT[0])))
                 r = m["Geometry"](sizes).sort(x)
                 ch = r.chromosome
                 codes = np.asarray(ch.raw()).ravel().tolist() if hasattr(ch, "raw") else [names.index(n) for n in ch.tolist()]
                 return {"recs": [[int(k), int(a), int(b)] for k, a, b in zip(codes, r.start.tolist(), r.stop.tolist())]}
             from bionumpy.genomic_data.geometry import StreamedGeometry
-            chunks = [_snap(m["Interval"]([names[i]] * len(rs), np.array([r[1] for r in rs], dtype=int), np.array([r[2] for r in rs], dtype=int)))
+            chunks = [_snap(m["Interval"]([names[i]] * len(rs), np.array([r[1] for r in rs], dtype=_DT[0]), np.array([r[2] for r in rs], dtype=_DT[0])))
                       for i in range(len(names)) for rs in [[r for r in c["rows"] if r[0] == i]] if rs]
             out = list(StreamedGeometry(sizes).merge_intervals(iter(chunks), c["d"]))
             return {"recs": [[names.index(n), int(a), int(b)] for o in out for n, a, b in
                              zip(o.chromosome.tolist(), o.start.tolist(), o.stop.tolist())]}
         if op in ("streamed_clip", "streamed_extend"):
             from bionumpy.genomic_data.geometry import StreamedGeometry
-            sizes = {f"chr{i + 1}": z for i, z in enumerate(c["chrom_sizes"])}
-            names = list(sizes)
+            sizes = _geo_sizes(c, c["chrom_sizes"])
+            names = _reg(sizes)
             idx = list(range(len(c["start"])))
             chunks = []
             for k in range(0, len(idx), 2):        # chunks of two rows, in the given row order
                 part = idx[k:k + 2]
                 ch = [names[c["chrom"][i]] for i in part]
-                st = np.array([c["start"][i] for i in part], dtype=int)
-                sp = np.array([c["stop"][i] for i in part], dtype=int)
+                st = np.array([c["start"][i] for i in part], dtype=_DT[0])
+                sp = np.array([c["stop"][i] for i in part], dtype=_DT[0])
                 if op == "streamed_clip":
                     chunks.append(_snap(m["Interval"](ch, st, sp)))
                 else:
@@ -719,9 +811,9 @@ def _impl_raw(c):
             out = list(sg.clip(iter(chunks)) if op == "streamed_clip" else sg.extend_to_size(iter(chunks), c["len"]))
             return {"iv": [p for o in out for p in _pairs(o)]}
         if op == "jaccard_matrix":
-            sizes = {f"chr{i + 1}": z for i, z in enumerate(c["sizes"])}
-            sets = [_snap(m["Interval"]([f"chr{r[0] + 1}" for r in st], np.array([r[1] for r in st], dtype=int),
-                                        np.array([r[2] for r in st], dtype=int))) for st in c["sets"]]
+            sizes = _geo_sizes(c, c["sizes"])
+            sets = [_snap(m["Interval"]([f"chr{r[0] + 1}" for r in st], np.array([r[1] for r in st], dtype=_DT[0]),
+                                        np.array([r[2] for r in st], dtype=_DT[0]))) for st in c["sets"]]
             with np.errstate(all="ignore"):
                 mat = m["Geometry"](sizes).jaccard_all_vs_all(sets)
             return {"bits": [[_bits(v) for v in row] for row in np.asarray(mat).tolist()]}
@@ -739,7 +831,7 @@ def _impl_raw(c):
             if "nnames" in c:       # many distinct chromosome names; plain string order = index order
                 names = ["ctg%05d" % i for i in range(c["nnames"])]
             ch = [names[r[0]] for r in recs]
-            st, sp = np.array([r[1] for r in recs], dtype=int), np.array([r[2] for r in recs], dtype=int)
+            st, sp = np.array([r[1] for r in recs], dtype=_DT[0]), np.array([r[2] for r in recs], dtype=_DT[0])
             if path == "enc":
                 enc = m["StringEncoding"](names)
                 x = _snap(m["Interval"](m["as_encoded_array"](ch, enc) if ch else m["as_encoded_array"]([], enc), st, sp))
@@ -765,7 +857,7 @@ def _impl_raw(c):
             t = m["sm"].get_contingency_table(_iv(c["a"]), _iv(c["b"]), c["size"])
             return {"t": [int(x) for x in np.asarray(t).ravel().tolist()]}
         if op in ("jaccard", "forbes", "geo_jaccard"):
-            sizes = {f"chr{i + 1}": ch["size"] for i, ch in enumerate(c["chroms"])}
+            sizes = _geo_sizes(c, [ch["size"] for ch in c["chroms"]]) if op == "geo_jaccard" else {f"chr{i + 1}": ch["size"] for i, ch in enumerate(c["chroms"])}
             a, b = _multi(c["chroms"], "a"), _multi(c["chroms"], "b")
             with np.errstate(all="ignore"):
                 if op == "geo_jaccard":
@@ -774,23 +866,23 @@ def _impl_raw(c):
                     v = getattr(ar, op)(sizes, a, b)
             return {"bits": _bits(v)}
         if op in ("geo_mask", "geo_pileup"):
-            sizes = {f"chr{i + 1}": z for i, z in enumerate(c["chrom_sizes"])}
+            sizes = _geo_sizes(c, c["chrom_sizes"])
             rows = c["rows"]
-            x = _snap(m["Interval"]([f"chr{r[0] + 1}" for r in rows], np.array([r[1] for r in rows], dtype=int),
-                                    np.array([r[2] for r in rows], dtype=int)))
+            x = _snap(m["Interval"]([f"chr{r[0] + 1}" for r in rows], np.array([r[1] for r in rows], dtype=_DT[0]),
+                                    np.array([r[2] for r in rows], dtype=_DT[0])))
             geo = m["Geometry"](sizes)
             d = (geo.get_mask(x) if op == "geo_mask" else geo.get_pileup(x)).to_dict()
-            return {"dict": [[int(v) for v in d[f"chr{i + 1}"].tolist()] for i in range(len(sizes))]}
+            return {"dict": [[int(v) for v in d[f"chr{i + 1}"].tolist()] for i in range(len(c["chrom_sizes"]))]}
         if op in ("clip", "geo_clip", "extend", "geo_extend"):
             n = len(c["start"])
-            st, sp = np.array(c["start"], dtype=int), np.array(c["stop"], dtype=int)
+            st, sp = np.array(c["start"], dtype=_DT[0]), np.array(c["stop"], dtype=_DT[0])
             if op.startswith("geo"):
-                sizes = {f"chr{i + 1}": z for i, z in enumerate(c["chrom_sizes"])}
+                sizes = _geo_sizes(c, c["chrom_sizes"])
                 ch = [f"chr{k + 1}" for k in c["chrom"]]
                 geo = m["Geometry"](sizes)
             else:
                 ch = ["chr1"] * n
-                z = c["sizes"][0] if len(set(c["sizes"])) <= 1 and n else np.array(c["sizes"], dtype=int)
+                z = c["sizes"][0] if len(set(c["sizes"])) <= 1 and n else np.array(c["sizes"], dtype=_DT[0])
             if op.endswith("clip"):
                 x = _snap(m["Interval"](ch, st, sp))
                 r = geo.clip(x) if op.startswith("geo") else iv.clip(x, z)
